@@ -1,1 +1,770 @@
-fn main() {}
+//! C17 — async directives select exactly the documented functions.
+//!
+//! Model monitor: random directive lists are pushed into the real
+//! `wit_bindgen_core::AsyncFilterSet`; `is_async` is queried for the functions of
+//! a random world in random order and compared with the reference below (first
+//! matching directive in order wins, else the WIT `async`); `ensure_all_used`
+//! must fail when some non-`all` directive matches none of the queries made and
+//! must succeed when every non-`all` directive decided some query (directives
+//! that only name-match behind an earlier one are left unjudged); the printed
+//! form of the directives (`debug_opts`) pushed into a second set must behave
+//! identically.
+//!
+//! End-to-end monitor: the real Rust, C and MoonBit generators run in-process
+//! with the directives; a function is "bound asynchronously" in the output iff
+//! its core import is named `[async-lower]<name>` / its core export
+//! `[async-lift]<name>`; that set must equal the reference's, and the Rust
+//! generator must return an error when a directive matches no function at all.
+//! Generator panics / other errors are inconclusive here.
+use corelib_mon::{catch, clip, fan_out, only_case};
+use serde_json::{json, Value};
+use std::collections::BTreeSet;
+use vkit::{Args, Report, Rng};
+use wit_bindgen_core::{AsyncFilterSet, Files, WorldGenerator};
+use wit_parser::{Function, FunctionKind, Resolve, WorldId, WorldItem, WorldKey};
+
+// ------------------------------------------------------------ reference model
+
+#[derive(Clone, Debug, PartialEq)]
+enum Kind {
+    All,
+    Any(String),
+    Import(String),
+    Export(String),
+}
+#[derive(Clone, Debug)]
+struct Dir {
+    enabled: bool,
+    kind: Kind,
+}
+
+/// Documented syntax: optional leading `-`; then `all`, `import:NAME`, `export:NAME` or `NAME`.
+fn ref_parse(s: &str) -> Dir {
+    let (enabled, rest) = match s.strip_prefix('-') {
+        Some(r) => (false, r),
+        None => (true, s),
+    };
+    let kind = if rest == "all" {
+        Kind::All
+    } else if let Some(n) = rest.strip_prefix("import:") {
+        Kind::Import(n.to_string())
+    } else if let Some(n) = rest.strip_prefix("export:") {
+        Kind::Export(n.to_string())
+    } else {
+        Kind::Any(rest.to_string())
+    };
+    Dir { enabled, kind }
+}
+
+fn ref_matches(d: &Dir, name: &str, is_import: bool) -> bool {
+    match &d.kind {
+        Kind::All => true,
+        Kind::Any(n) => n == name,
+        Kind::Import(n) => is_import && n == name,
+        Kind::Export(n) => !is_import && n == name,
+    }
+}
+
+/// (bound async?, index of the deciding directive)
+fn ref_is_async(dirs: &[Dir], name: &str, is_import: bool, wit_async: bool) -> (bool, Option<usize>) {
+    for (i, d) in dirs.iter().enumerate() {
+        if ref_matches(d, name, is_import) {
+            return (d.enabled, Some(i));
+        }
+    }
+    (wit_async, None)
+}
+
+// ------------------------------------------------------------ worlds
+
+struct FnRef {
+    key: Option<WorldKey>,
+    func: Function,
+    is_import: bool,
+    /// the name directives are matched against: `<interface>#<func>` or `<func>`
+    name: String,
+    wit_async: bool,
+    /// core module / names
+    module: String,
+}
+
+fn wit_async(f: &Function) -> bool {
+    matches!(f.kind, FunctionKind::AsyncFreestanding | FunctionKind::AsyncMethod(_) | FunctionKind::AsyncStatic(_))
+}
+
+fn inventory(resolve: &Resolve, world: WorldId) -> Vec<FnRef> {
+    let w = &resolve.worlds[world];
+    let mut v = vec![];
+    for (is_import, items) in [(true, &w.imports), (false, &w.exports)] {
+        for (key, item) in items.iter() {
+            match item {
+                WorldItem::Function(f) => v.push(FnRef {
+                    key: None,
+                    func: f.clone(),
+                    is_import,
+                    name: f.name.clone(),
+                    wit_async: wit_async(f),
+                    module: "$root".into(),
+                }),
+                WorldItem::Interface { id, .. } => {
+                    let kn = resolve.name_world_key(key);
+                    for (_, f) in resolve.interfaces[*id].functions.iter() {
+                        v.push(FnRef {
+                            key: Some(key.clone()),
+                            func: f.clone(),
+                            is_import,
+                            name: format!("{kn}#{}", f.name),
+                            wit_async: wit_async(f),
+                            module: kn.clone(),
+                        });
+                    }
+                }
+                WorldItem::Type { .. } => {}
+            }
+        }
+    }
+    v
+}
+
+const FN_NAMES: &[&str] = &["f", "g", "run", "get-x", "all", "h"];
+
+fn small_world(rng: &mut Rng) -> String {
+    let ver = *rng.pick(&["", "", "@1.0.0", "@0.2.1-rc.1"]);
+    let mut s = format!("package t:p{ver};\n");
+    let n_if = rng.range(1, 3);
+    let mut ifaces = vec![];
+    for k in 0..n_if {
+        let iname = format!("i{k}");
+        s.push_str(&format!("interface {iname} {{\n"));
+        if rng.chance(1, 2) {
+            s.push_str("  resource r {\n");
+            if rng.chance(1, 2) {
+                s.push_str("    constructor(a: u32);\n");
+            }
+            let mut used = BTreeSet::new();
+            for _ in 0..rng.range(0, 3) {
+                let m = *rng.pick(FN_NAMES);
+                if !used.insert(m) {
+                    continue;
+                }
+                let a = if rng.chance(1, 2) { "async " } else { "" };
+                let st = if rng.chance(1, 4) { "static " } else { "" };
+                s.push_str(&format!("    {}: {st}{a}func(x: u32) -> u32;\n", esc(m)));
+            }
+            s.push_str("  }\n");
+        }
+        let mut used = BTreeSet::new();
+        for _ in 0..rng.range(1, 4) {
+            let f = *rng.pick(FN_NAMES);
+            if !used.insert(f) {
+                continue;
+            }
+            let a = if rng.chance(1, 2) { "async " } else { "" };
+            let sig = *rng.pick(&["()", "(a: u32) -> u32", "(s: string) -> string", "(a: u8, b: list<u8>)"]);
+            s.push_str(&format!("  {}: {a}func{sig};\n", esc(f)));
+        }
+        s.push_str("}\n");
+        ifaces.push(iname);
+    }
+    s.push_str("world w {\n");
+    let mut any = false;
+    for i in &ifaces {
+        match rng.below(4) {
+            0 => s.push_str(&format!("  import {i};\n")),
+            1 => s.push_str(&format!("  export {i};\n")),
+            2 => s.push_str(&format!("  import {i};\n  export {i};\n")),
+            _ => continue,
+        }
+        any = true;
+    }
+    if rng.chance(1, 3) {
+        let a = if rng.chance(1, 2) { "async " } else { "" };
+        let dir = if rng.chance(1, 2) { "import" } else { "export" };
+        s.push_str(&format!("  {dir} inl: interface {{ f: {a}func(); run: func() -> u32; }}\n"));
+        any = true;
+    }
+    let mut used_i = BTreeSet::new();
+    let mut used_e = BTreeSet::new();
+    for _ in 0..rng.range(if any { 0 } else { 1 }, 4) {
+        let f = *rng.pick(FN_NAMES);
+        let a = if rng.chance(1, 2) { "async " } else { "" };
+        if rng.chance(1, 2) {
+            if used_i.insert(f) {
+                s.push_str(&format!("  import {}: {a}func(a: u32) -> u32;\n", esc(f)));
+            }
+        } else if used_e.insert(f) {
+            s.push_str(&format!("  export {}: {a}func(a: u32) -> u32;\n", esc(f)));
+        }
+    }
+    s.push_str("}\n");
+    s
+}
+
+fn esc(id: &str) -> String {
+    if id == "all" {
+        id.to_string()
+    } else {
+        id.to_string()
+    }
+}
+
+// ------------------------------------------------------------ directives
+
+fn gen_dirs(rng: &mut Rng, fns: &[FnRef], bogus: bool) -> Vec<String> {
+    let n = match rng.below(10) {
+        0 => 0,
+        1..=3 => 1,
+        4..=6 => 2,
+        _ => rng.range(3, 6),
+    };
+    let mut v: Vec<String> = vec![];
+    for _ in 0..n {
+        let neg = if rng.chance(2, 5) { "-" } else { "" };
+        let roll = rng.below(20);
+        let d = match roll {
+            0 | 1 => format!("{neg}all"),
+            2..=13 if !fns.is_empty() => {
+                let f = &fns[rng.usize(fns.len())];
+                let prefix = match rng.below(5) {
+                    0 | 1 => "",
+                    2 => "import:",
+                    3 => "export:",
+                    _ => {
+                        if f.is_import {
+                            "import:"
+                        } else {
+                            "export:"
+                        }
+                    }
+                };
+                format!("{neg}{prefix}{}", f.name)
+            }
+            14 if !v.is_empty() => v[rng.usize(v.len())].clone(), // duplicate
+            15 if !v.is_empty() => {
+                // same target, opposite sign
+                let d = v[rng.usize(v.len())].clone();
+                match d.strip_prefix('-') {
+                    Some(r) => r.to_string(),
+                    None => format!("-{d}"),
+                }
+            }
+            _ if bogus && !fns.is_empty() => {
+                // near misses: must match nothing
+                let f = &fns[rng.usize(fns.len())];
+                let base = &f.name;
+                let cand = match rng.below(8) {
+                    0 => base.rsplit('#').next().unwrap().to_string() + "-nope",
+                    1 => base.split('@').next().unwrap().replace('#', "/"),
+                    2 => format!("{base} "),
+                    3 => base.to_uppercase(),
+                    4 => format!("#{}", base.rsplit('#').next().unwrap()),
+                    5 => format!("import:export:{base}"),
+                    6 => format!("-{neg}all"),
+                    _ => "nope:pkg/iface#f".to_string(),
+                };
+                format!("{neg}{}{cand}", *rng.pick(&["", "", "import:", "export:"]))
+            }
+            _ => format!("{neg}all"),
+        };
+        v.push(d);
+    }
+    v
+}
+
+// ------------------------------------------------------------ model monitor
+
+fn decide_class(dirs: &[Dir], name: &str, is_import: bool, decided: Option<usize>) -> String {
+    let base = match decided {
+        None => "wit-default".to_string(),
+        Some(i) => match &dirs[i].kind {
+            Kind::All => "all",
+            Kind::Any(_) => "name",
+            Kind::Import(_) => "import",
+            Kind::Export(_) => "export",
+        }
+        .to_string(),
+    };
+    let later_conflict = match decided {
+        Some(i) => dirs[i + 1..].iter().any(|d| ref_matches(d, name, is_import) && d.enabled != dirs[i].enabled),
+        None => false,
+    };
+    if later_conflict {
+        format!("{base}:conflicting-later-match")
+    } else {
+        base
+    }
+}
+
+fn model_case(rng: &mut Rng, idx: u64, rep: &mut Report, seed: u64) {
+    let (wit, resolve, world) = if rng.chance(1, 10) {
+        let cfg = witgen::Cfg { async_: true, ifaces: 2, funcs: 3, types: 2, ..Default::default() };
+        match witgen::generate_valid(rng, &cfg) {
+            Some((w, r, id, _)) => (w.wit, r, id),
+            None => return,
+        }
+    } else {
+        let wit = small_world(rng);
+        match witgen::parse(&wit) {
+            Ok((r, id)) => (wit, r, id),
+            Err(e) => {
+                rep.count("model_worlds_rejected_by_parser");
+                if std::env::var("C17_DEBUG").is_ok() {
+                    eprintln!("rejected: {e:#}\n{wit}");
+                }
+                return;
+            }
+        }
+    };
+    let fns = inventory(&resolve, world);
+    let texts = gen_dirs(rng, &fns, true);
+    let dirs: Vec<Dir> = texts.iter().map(|s| ref_parse(s)).collect();
+    let mut real = AsyncFilterSet::default();
+    for t in &texts {
+        real.push(t);
+    }
+    let replay = |extra: Value| json!({"seed": seed, "stream": "model", "case": idx, "wit": wit, "directives": texts, "detail": extra});
+
+    // queries: real directions, sometimes also the opposite direction, sometimes only some of them
+    let mut queries: Vec<(usize, bool)> = (0..fns.len()).map(|i| (i, fns[i].is_import)).collect();
+    if rng.chance(1, 4) {
+        for i in 0..fns.len() {
+            if rng.chance(1, 2) {
+                queries.push((i, !fns[i].is_import));
+            }
+        }
+    }
+    rng.shuffle(&mut queries);
+    if rng.chance(1, 3) && !queries.is_empty() {
+        let keep = rng.range(0, queries.len());
+        queries.truncate(keep);
+    }
+    if rng.chance(1, 4) {
+        let extra: Vec<(usize, bool)> = queries.iter().take(3).cloned().collect();
+        queries.extend(extra);
+    }
+    let mut matched_any = vec![false; dirs.len()]; // name/direction matches some query made
+    let mut decided_any = vec![false; dirs.len()]; // was the first match of some query made
+    let mut log = vec![];
+    let check_ensure = |real: &AsyncFilterSet, matched_any: &[bool], decided_any: &[bool], rep: &mut Report, log: &[Value]| -> bool {
+        let non_all = |i: usize| dirs[i].kind != Kind::All;
+        let must_fail = (0..dirs.len()).any(|i| non_all(i) && !matched_any[i]);
+        let must_pass = (0..dirs.len()).all(|i| !non_all(i) || decided_any[i]);
+        let got_err = real.ensure_all_used().is_err();
+        rep.count(if must_fail {
+            "ensure_all_used:must-fail"
+        } else if must_pass {
+            "ensure_all_used:must-pass"
+        } else {
+            "ensure_all_used:unjudged(shadowed directive)"
+        });
+        if must_fail && !got_err {
+            let i = (0..dirs.len()).find(|i| non_all(*i) && !matched_any[*i]).unwrap();
+            rep.violation(
+                "async:ensure_all_used:accepts-unmatched-directive",
+                &format!("directives {texts:?}: `{}` matches none of the {} queries made, yet ensure_all_used() returned Ok", texts[i], log.len()),
+                replay(json!({"queries": log})),
+            );
+            return false;
+        }
+        if must_pass && got_err {
+            rep.violation(
+                "async:ensure_all_used:rejects-although-every-directive-decided-a-query",
+                &format!("directives {texts:?}: every non-`all` directive was the first match of some query, yet ensure_all_used() failed: {:?}", real.ensure_all_used().err().map(|e| e.to_string())),
+                replay(json!({"queries": log})),
+            );
+            return false;
+        }
+        true
+    };
+    let mid = if queries.is_empty() { 0 } else { rng.usize(queries.len()) };
+    for (qn, (fi, is_import)) in queries.iter().enumerate() {
+        if qn == mid && rng.chance(1, 2) && !check_ensure(&real, &matched_any, &decided_any, rep, &log) {
+            return;
+        }
+        let f = &fns[*fi];
+        let got = real.is_async(&resolve, f.key.as_ref(), &f.func, *is_import);
+        let (want, by) = ref_is_async(&dirs, &f.name, *is_import, f.wit_async);
+        for (i, d) in dirs.iter().enumerate() {
+            if ref_matches(d, &f.name, *is_import) {
+                matched_any[i] = true;
+            }
+        }
+        if let Some(i) = by {
+            decided_any[i] = true;
+        }
+        log.push(json!({"name": f.name, "import": is_import, "wit_async": f.wit_async, "got": got, "want": want}));
+        rep.count("is_async_queries");
+        if got != want {
+            let class = decide_class(&dirs, &f.name, *is_import, by);
+            rep.violation(
+                &format!("async:is_async:decided-by-{class}"),
+                &format!(
+                    "directives {texts:?}: is_async({:?}, {}) = {got} but {} ⇒ {want}",
+                    f.name,
+                    if *is_import { "import" } else { "export" },
+                    match by {
+                        Some(i) => format!("the first matching directive is #{i} `{}`", texts[i]),
+                        None => format!("no directive matches and the WIT function is {}", if f.wit_async { "async" } else { "sync" }),
+                    }
+                ),
+                replay(json!({"queries": log})),
+            );
+            return;
+        }
+    }
+    if !check_ensure(&real, &matched_any, &decided_any, rep, &log) {
+        return;
+    }
+    // Display∘parse round trip: the printed directives behave the same
+    let printed: Vec<String> = real.debug_opts().collect();
+    let mut second = AsyncFilterSet::default();
+    for p in &printed {
+        second.push(p);
+    }
+    let printed2: Vec<String> = second.debug_opts().collect();
+    let mut rt_ok = printed == printed2 && printed.len() == texts.len();
+    let mut fresh = AsyncFilterSet::default();
+    for t in &texts {
+        fresh.push(t);
+    }
+    for (fi, is_import) in &queries {
+        let f = &fns[*fi];
+        if second.is_async(&resolve, f.key.as_ref(), &f.func, *is_import) != fresh.is_async(&resolve, f.key.as_ref(), &f.func, *is_import) {
+            rt_ok = false;
+        }
+    }
+    if second.ensure_all_used().is_err() != fresh.ensure_all_used().is_err() {
+        rt_ok = false;
+    }
+    if !rt_ok {
+        rep.violation(
+            "async:display-parse-roundtrip",
+            &format!("directives {texts:?} print as {printed:?}; pushing the printed forms gives a set that prints as {printed2:?} or answers differently"),
+            replay(json!({})),
+        );
+        return;
+    }
+    rep.eval();
+    let nontrivial = dirs.len() >= 2 && (0..dirs.len()).any(|i| dirs[i].kind != Kind::All && decided_any[i]);
+    if nontrivial {
+        let shape: Vec<String> = dirs
+            .iter()
+            .enumerate()
+            .map(|(i, d)| {
+                format!(
+                    "{}{}{}",
+                    if d.enabled { "+" } else { "-" },
+                    match d.kind {
+                        Kind::All => "A",
+                        Kind::Any(_) => "n",
+                        Kind::Import(_) => "i",
+                        Kind::Export(_) => "e",
+                    },
+                    if decided_any[i] {
+                        "!"
+                    } else if matched_any[i] {
+                        "~"
+                    } else {
+                        "0"
+                    }
+                )
+            })
+            .collect();
+        rep.distinct(&format!("{}|{}|{}", shape.join(""), fns.len(), queries.len()));
+    }
+    if idx < 3 {
+        rep.sample(json!({"wit": wit, "directives": texts, "queries": log}));
+    }
+}
+
+// ------------------------------------------------------------ end-to-end
+
+#[derive(Default, Debug)]
+struct CoreNames {
+    imports: BTreeSet<(String, String)>,
+    exports: BTreeSet<String>,
+}
+
+fn quoted_after<'a>(s: &'a str, pat: &str) -> Option<(&'a str, &'a str)> {
+    let i = s.find(pat)? + pat.len();
+    let rest = &s[i..];
+    let j = rest.find('"')?;
+    Some((&rest[..j], &rest[j + 1..]))
+}
+
+fn extract_rust(files: &Files) -> CoreNames {
+    let mut n = CoreNames::default();
+    for (name, c) in files.iter() {
+        if !name.ends_with(".rs") {
+            continue;
+        }
+        let text = String::from_utf8_lossy(c);
+        let mut module: Option<String> = None;
+        for l in text.lines() {
+            if let Some((m, _)) = quoted_after(l, "wasm_import_module = \"") {
+                module = Some(m.to_string());
+            }
+            if let Some((x, _)) = quoted_after(l, "link_name = \"") {
+                if let Some(m) = &module {
+                    n.imports.insert((m.clone(), x.to_string()));
+                }
+            }
+            if let Some((x, _)) = quoted_after(l, "export_name = \"") {
+                n.exports.insert(x.to_string());
+            }
+        }
+    }
+    n
+}
+
+fn extract_c(files: &Files) -> CoreNames {
+    let mut n = CoreNames::default();
+    for (name, c) in files.iter() {
+        if !name.ends_with(".c") {
+            continue;
+        }
+        let text = String::from_utf8_lossy(c);
+        for l in text.lines() {
+            if let Some((m, rest)) = quoted_after(l, "__import_module__(\"") {
+                if let Some((x, _)) = quoted_after(rest, "__import_name__(\"") {
+                    n.imports.insert((m.to_string(), x.to_string()));
+                }
+            }
+            if let Some((x, _)) = quoted_after(l, "__export_name__(\"") {
+                n.exports.insert(x.to_string());
+            }
+        }
+    }
+    n
+}
+
+fn extract_moonbit(files: &Files) -> Option<CoreNames> {
+    let mut n = CoreNames::default();
+    for (name, c) in files.iter() {
+        let text = String::from_utf8_lossy(c);
+        if name.ends_with(".mbt") {
+            for l in text.lines() {
+                let t = l.trim_end();
+                if !t.starts_with("fn ") || !t.ends_with('"') {
+                    continue;
+                }
+                // `... = "module" "name"`
+                let q: Vec<usize> = t.match_indices('"').map(|(i, _)| i).collect();
+                if q.len() < 4 {
+                    continue;
+                }
+                let (a, b, c2, d) = (q[q.len() - 4], q[q.len() - 3], q[q.len() - 2], q[q.len() - 1]);
+                if &t[b + 1..c2] != " " || !t[..a].trim_end().ends_with('=') {
+                    continue;
+                }
+                n.imports.insert((t[a + 1..b].to_string(), t[c2 + 1..d].to_string()));
+            }
+        } else if name.ends_with("moon.pkg.json") {
+            let v: Value = serde_json::from_str(&text).ok()?;
+            if let Some(ex) = v.pointer("/link/wasm/exports").and_then(|e| e.as_array()) {
+                for e in ex {
+                    if let Some((_, core)) = e.as_str().and_then(|s| s.split_once(':')) {
+                        n.exports.insert(core.to_string());
+                    }
+                }
+            }
+        }
+    }
+    Some(n)
+}
+
+fn e2e_case(rng: &mut Rng, idx: u64, rep: &mut Report, seed: u64) {
+    let (wit, tags) = if rng.chance(1, 2) {
+        let cfg = witgen::Cfg { async_: true, error_context: false, fixed_lists: false, ifaces: 2, funcs: 3, types: 3, ..Default::default() };
+        match witgen::generate_valid(rng, &cfg) {
+            Some((w, _, _, _)) => (w.wit, w.tags.into_iter().collect::<Vec<_>>()),
+            None => return,
+        }
+    } else {
+        let wit = small_world(rng);
+        match witgen::parse(&wit) {
+            Ok((r, id)) => {
+                if witgen::check_encodable(&r, id).is_err() {
+                    rep.count("e2e_small_world_not_encodable");
+                    return;
+                }
+            }
+            Err(_) => return,
+        }
+        (wit, vec![])
+    };
+    let (resolve, world) = match witgen::parse(&wit) {
+        Ok(x) => x,
+        Err(_) => return,
+    };
+    let fns = inventory(&resolve, world);
+    let bogus = rng.chance(1, 3);
+    let texts = gen_dirs(rng, &fns, bogus);
+    let dirs: Vec<Dir> = texts.iter().map(|s| ref_parse(s)).collect();
+    let unmatched: Vec<usize> = (0..dirs.len()).filter(|i| dirs[*i].kind != Kind::All && !fns.iter().any(|f| ref_matches(&dirs[*i], &f.name, f.is_import))).collect();
+    let replay = |extra: Value| json!({"seed": seed, "stream": "e2e", "case": idx, "wit": wit, "directives": texts, "tags": tags, "detail": extra});
+    rep.eval();
+    let n_async_expected = fns.iter().filter(|f| ref_is_async(&dirs, &f.name, f.is_import, f.wit_async).0).count();
+    if !dirs.is_empty() && n_async_expected > 0 && n_async_expected < fns.len() {
+        rep.distinct(&format!("{}|{}", texts.join(","), vkit::hash_str(&wit)));
+    }
+
+    for backend in ["rust", "c", "moonbit"] {
+        let (mut r, w) = match witgen::parse(&wit) {
+            Ok(x) => x,
+            Err(_) => return,
+        };
+        let mut files = Files::default();
+        let res = catch(|| match backend {
+            "rust" => {
+                let mut o = wit_bindgen_rust::Opts::default();
+                o.generate_all = true;
+                for d in &texts {
+                    o.async_.push(d);
+                }
+                o.build().generate(&mut r, w, &mut files)
+            }
+            "c" => {
+                let mut o = wit_bindgen_c::Opts::default();
+                for d in &texts {
+                    o.async_.push(d);
+                }
+                o.build().generate(&mut r, w, &mut files)
+            }
+            _ => {
+                let mut o = wit_bindgen_moonbit::Opts::default();
+                for d in &texts {
+                    o.async_.push(d);
+                }
+                o.build().generate(&mut r, w, &mut files)
+            }
+        });
+        match res {
+            Err((m, l)) => {
+                rep.count(&format!("e2e:{backend}:generator-panic"));
+                rep.inconclusive(&format!("C17 e2e: {backend} generator panicked at {l}: {}", clip(&m, 70)));
+                continue;
+            }
+            Ok(Err(e)) => {
+                let msg = format!("{e:#}");
+                if backend == "rust" && !unmatched.is_empty() {
+                    rep.count("e2e:rust:rejected-unmatched-directive");
+                    continue;
+                }
+                if backend == "rust" && msg.contains("unused async option") {
+                    // a directive that name-matches but never decided: outside the reading
+                    rep.count("e2e:rust:rejected-shadowed-directive(unjudged)");
+                    continue;
+                }
+                rep.count(&format!("e2e:{backend}:generator-error"));
+                rep.inconclusive(&format!("C17 e2e: {backend} generator error: {}", clip(&msg, 70)));
+                continue;
+            }
+            Ok(Ok(())) => {
+                if backend == "rust" && !unmatched.is_empty() {
+                    rep.violation(
+                        "async:e2e:rust:accepts-unmatched-directive",
+                        &format!("Rust generator returned Ok although directive `{}` of {texts:?} matches no function of the world", texts[unmatched[0]]),
+                        replay(json!({})),
+                    );
+                    continue;
+                }
+            }
+        }
+        let names = match backend {
+            "rust" => extract_rust(&files),
+            "c" => extract_c(&files),
+            _ => match extract_moonbit(&files) {
+                Some(n) => n,
+                None => {
+                    rep.inconclusive("C17 e2e: moon.pkg.json did not parse");
+                    continue;
+                }
+            },
+        };
+        rep.count(&format!("e2e:{backend}:outputs-scanned"));
+        for f in &fns {
+            let (want, by) = ref_is_async(&dirs, &f.name, f.is_import, f.wit_async);
+            let (has_sync, has_async) = if f.is_import {
+                (
+                    names.imports.contains(&(f.module.clone(), f.func.name.clone())),
+                    names.imports.contains(&(f.module.clone(), format!("[async-lower]{}", f.func.name))),
+                )
+            } else {
+                let core = if f.key.is_some() { format!("{}#{}", f.module, f.func.name) } else { f.func.name.clone() };
+                (names.exports.contains(&core), names.exports.contains(&format!("[async-lift]{core}")))
+            };
+            let got = match (has_sync, has_async) {
+                (true, false) => false,
+                (false, true) => true,
+                (false, false) => {
+                    rep.count(&format!("e2e:{backend}:function-not-found-in-output"));
+                    continue;
+                }
+                (true, true) => {
+                    rep.count(&format!("e2e:{backend}:function-found-in-both-forms"));
+                    continue;
+                }
+            };
+            rep.count(&format!("e2e:{backend}:functions-judged"));
+            if got {
+                rep.count(&format!("e2e:{backend}:functions-async"));
+            }
+            if got != want {
+                let dirn = if f.is_import { "import" } else { "export" };
+                rep.violation(
+                    &format!("async:e2e:{backend}:{dirn}:{}", if want { "expected-async-got-sync" } else { "expected-sync-got-async" }),
+                    &format!(
+                        "{backend} output for directives {texts:?}: {dirn} {:?} is bound {} but {} ⇒ {}",
+                        f.name,
+                        if got { "async ([async-lower]/[async-lift] core name)" } else { "sync (plain core name)" },
+                        match by {
+                            Some(i) => format!("first matching directive is `{}`", texts[i]),
+                            None => format!("no directive matches and the WIT says {}", if f.wit_async { "async" } else { "sync" }),
+                        },
+                        if want { "async" } else { "sync" }
+                    ),
+                    replay(json!({"function": f.name, "module": f.module, "core_name": f.func.name})),
+                );
+            }
+        }
+    }
+    if idx < 2 {
+        rep.sample(json!({"e2e_wit": wit, "directives": texts, "expected_async": fns.iter().filter(|f| ref_is_async(&dirs, &f.name, f.is_import, f.wit_async).0).map(|f| format!("{}:{}", if f.is_import {"import"} else {"export"}, f.name)).collect::<Vec<_>>() }));
+    }
+}
+
+fn main() {
+    std::env::set_var("VERIF_WASM_IMPORTS", "1");
+    let args = Args::parse();
+    let seed = args.seed();
+    let n_model: u64 = args.u64("n", if args.thorough() { 2_000_000 } else { 20_000 });
+    let n_e2e: u64 = args.u64("e2e", if args.thorough() { 6_000 } else { 200 });
+    let mut rep = Report::new(
+        "model case = one world (small generated world with name clashes across interfaces / world level, or a witgen async world) x one directive list (0..6 of all, -all, name, import:/export:, negations, duplicates, near misses) x a shuffled query set; \
+         e2e case = one encodable world x one directive list run through the Rust, C and MoonBit generators; \
+         distinct = model: (directive kind/sign/used pattern, #functions, #queries) with >= 2 directives of which a non-`all` one decided a query; e2e: (directives, world) where some but not all functions are expected async",
+    );
+    rep.assume("function names come from wit-parser (Resolve::name_world_key, Function::name); core names follow the [async-lower]/[async-lift] convention seen in the three backends' output");
+    rep.assume("ensure_all_used is judged only when a directive matches no query at all (must fail) or every non-all directive decided a query (must pass)");
+    let stream = args.str("stream", "");
+    if let Some(i) = only_case(&args) {
+        if stream == "e2e" {
+            let mut rng = corelib_mon::case_rng(seed, 1702, i);
+            e2e_case(&mut rng, i, &mut rep, seed);
+        } else {
+            let mut rng = corelib_mon::case_rng(seed, 1701, i);
+            model_case(&mut rng, i, &mut rep, seed);
+        }
+    } else {
+        fan_out(&mut rep, seed, 1701, n_model, |rng, i, r| model_case(rng, i, r, seed));
+        let mut e2e = Report::new("");
+        e2e.max_samples = 2;
+        fan_out(&mut e2e, seed, 1702, n_e2e, |rng, i, r| e2e_case(rng, i, r, seed));
+        rep.max_samples = 8;
+        rep.extra.insert("e2e_worlds".into(), json!(e2e.evaluations));
+        rep.extra.insert("model_cases".into(), json!(rep.evaluations));
+        corelib_mon::merge(&mut rep, e2e);
+    }
+    rep.write(&args.out());
+}
